@@ -207,6 +207,8 @@ def check(case):
       expected = mod.plain(*args)
     except Exception as e:  # pylint: disable=broad-except
       out.skipped = 'plain-python-raises:' + type(e).__name__
+      if isinstance(e, NameError) and os.environ.get('VERIF_DEBUG_C11'):
+        print('NAMEERROR', e, '\n', src)
       return out
     ce = _canon(expected)
     # decorated direct call == undecorated
